@@ -57,6 +57,15 @@ def main():
         return (type(t).__name__, len(t), tuple((str(k), tuple(str(c) for c in v)) for k, v in t.items()))
 
     def evaluate(item):
+        after = item.get('interrupt_after')
+        if after:
+            # F10: this application is pre-empted after `after` lines of repository code (KeyboardInterrupt)
+            from depsim import faults
+            hit, value = faults.run_interrupted(lambda: evaluate_plain(item), after)
+            return {'interrupted': True} if hit else value
+        return evaluate_plain(item)
+
+    def evaluate_plain(item):
         mod = mods[item['lang']]
         try:
             if item['kind'] == 'binary' and item.get('pickled'):
